@@ -569,3 +569,57 @@ def bool_call_polarity(fn, bb):
     if len(verdicts) == 1:
         return verdicts.pop()
     return None
+
+
+# ------------------------------------------------------------------ A8 type rules
+
+CELL_DEFS = ("std::cell::UnsafeCell", "core::cell::UnsafeCell")
+REFCOUNT_OK = (
+    ("alloc::sync::ArcInner.strong", "refcount only (Arc)"),
+    ("alloc::sync::ArcInner.weak", "refcount only (Arc)"),
+    ("alloc::rc::RcInner.strong", "refcount only (Rc)"),
+    ("alloc::rc::RcInner.weak", "refcount only (Rc)"),
+    ("bytes::Bytes.data", "bytes::Bytes shared-buffer pointer (refcount only)"),
+)
+
+
+def interior_mut(prog, ty, allow=REFCOUNT_OK):
+    """UnsafeCell nodes reachable from `ty` in the exported type graph.
+    Returns (hits, allowed): lists of (cell type, path labels)."""
+    if ty not in prog.tys:
+        raise AnchorMissing("type not in the exported type graph: %s" % ty)
+    hits, allowed = [], []
+    for t, path in prog.ty_reach(ty).items():
+        node = prog.tys.get(t)
+        if node is None or node.get("def") not in CELL_DEFS:
+            continue
+        reason = None
+        for lbl, why in allow:
+            if any(lbl in p or p.endswith(lbl.split("::")[-1]) and lbl.split("::")[-1] in p for p in path):
+                if any(p.endswith(lbl.rsplit("::", 1)[-1]) or lbl in p for p in path):
+                    reason = why
+                    break
+        (allowed if reason else hits).append((t, path))
+    return hits, allowed
+
+
+def dominates(fn, a_blocks, b_blocks, unwind=False):
+    """Every path entry -> any b passes some a (a_blocks non-empty).  Returns witness path or None."""
+    if not a_blocks:
+        return [0]
+    bs = [b for b in b_blocks if b not in a_blocks]
+    return fn.path([0], bs, avoid_blocks=a_blocks, unwind=unwind)
+
+
+def fn_ret_ty(fn):
+    return fn.locals[0]
+
+
+def fn_param_tys(fn):
+    return fn.locals[1:fn.argc + 1]
+
+
+NONDET = (r"^std::time::(SystemTime|Instant)::now$|^std::time::Instant::elapsed$|^rand(_core|_chacha)?::|^getrandom::|"
+          r"^std::env::(var|vars|var_os|args|current_dir|temp_dir)|^std::thread::(current|available_parallelism)$|"
+          r"RandomState::new$|^std::hash::random::|^std::collections::hash_map::|^std::collections::HashMap|^std::collections::HashSet|"
+          r"^std::collections::hash::|^std::process::id$|^std::ptr::.*::addr$|^core::ptr::.*::addr$")
